@@ -338,10 +338,19 @@ def gen_sim(rng, tier):
     case = gen.rand_bn(rng, nmin=2, nmax=4, maxcard=3, name_kind="str", label_kind=rng.choice(["permint", "str", "int"]), mincard=2,
                        positive=True)
     n = len(case["nodes"])
-    case["mode"] = rng.choice(["plain", "do", "evidence", "virtual"])
+    case["mode"] = rng.choice(["plain", "do", "evidence", "virtual", "virtual", "missing"])
     v = rng.randrange(n)
     case["var"] = [v, rng.randrange(case["card"][v])]
     case["like"] = [rs(Fraction(rng.randint(1, 9), 10)) for _ in range(case["card"][v])]
+    if rng.random() < .4:
+        # an un-normalised likelihood vector whose largest entry is exactly 1 (likelihoods are only defined up to scale)
+        like = [Fraction(1)] + [rng.choice([Fraction(1), Fraction(1, 2), Fraction(1, 4), Fraction(0)]) for _ in range(case["card"][v] - 1)]
+        if all(x == like[0] for x in like) or sum(1 for x in like if x) < 2:
+            like[1] = Fraction(1, 2)
+        rng.shuffle(like)
+        case["like"] = [rs(x) for x in like]
+    case["missing_prob"] = rs(rng.choice([Fraction(1, 10), Fraction(3, 10), Fraction(1, 2)]))
+    case["missing_columns"] = rng.choice([None, None, rng.sample(range(n), rng.randint(1, n))])
     case["size"] = rng.choice([5, 2500])
     case["seed"] = rng.choice([0, rng.randrange(10 ** 6), rng.randrange(10 ** 6), rng.randrange(10 ** 6)])     # 0 is a legal seed
     return case
@@ -384,6 +393,37 @@ def run_sim(case, drv):
         return fail(f"simulate columns {sorted(map(str, df.columns))}", **tags)
     if not df[sorted(df.columns, key=str)].reset_index(drop=True).astype(str).equals(df2[sorted(df2.columns, key=str)].reset_index(drop=True).astype(str)):
         return fail("simulate: the same seed gave two different sample frames", **tags)
+    if case["mode"] == "missing":
+        # the same seed with missing values: the observed cells are the complete sample's, holes only where requested, at about the rate
+        import numpy as np
+        mp = float(Fraction(case["missing_prob"]))
+        mc = case["missing_columns"]
+        try:
+            dm = bn.simulate(n_samples=case["size"], seed=case["seed"], show_progress=False, include_missing=True, missing_prob=mp,
+                             missing_columns=None if mc is None else [pn[w] for w in mc])
+            dm2 = bn.simulate(n_samples=case["size"], seed=case["seed"], show_progress=False, include_missing=True, missing_prob=mp,
+                              missing_columns=None if mc is None else [pn[w] for w in mc])
+        except Exception as e:
+            return fail(f"simulate(include_missing=True) raised {type(e).__name__}: {e}", **tags)
+        if set(dm.columns) != set(pn) or len(dm) != case["size"]:
+            return fail(f"simulate(include_missing=True) returned columns {sorted(map(str, dm.columns))}, {len(dm)} rows", **tags)
+        holes = 0
+        for w in range(n):
+            a, b, b2 = df[pn[w]].astype(object).values, dm[pn[w]].astype(object).values, dm2[pn[w]].astype(object).values
+            for i in range(len(a)):
+                miss = b[i] is None or b[i] != b[i]
+                if miss != (b2[i] is None or b2[i] != b2[i]):
+                    return fail("simulate(include_missing=True): the same seed put the holes in different places", **tags)
+                if miss:
+                    holes += 1
+                    if mc is not None and w not in mc:
+                        return fail(f"simulate: missing value in column {pn[w]}, requested only in {[pn[x] for x in mc]}", **tags)
+                elif not (b[i] == a[i] or str(b[i]) == str(a[i])):        # integer labels come back as floats next to NaN: 1.0 == 1
+                    return fail(f"simulate(include_missing=True, seed={case['seed']}): observed cell ({i}, {pn[w]}) = {b[i]!r}, the complete "
+                                f"sample of the same seed has {a[i]!r}", **tags)
+        cells = case["size"] * (n if mc is None else len(mc))
+        if cells >= 2000 and not within(holes / cells, Fraction(case["missing_prob"]), cells):
+            return fail(f"simulate: {holes} of {cells} eligible cells are missing, missing_prob = {mp}", **tags)
     rows, err = rows_to_idx(df, case, list(range(n)))
     if err:
         return fail("simulate: " + err, **tags)
@@ -543,13 +583,68 @@ def run_gibbs_chain(case, drv):
     return ok(nontrivial=n > 1, freq=False, **tags)
 
 
+# ----------------------------------------------------------------------------- a fixed seed across process hash seeds
+def gen_repro(rng, tier):
+    jobs = []
+    for _ in range(6 if tier == "quick" else 10):
+        case = gen.rand_bn(rng, nmin=3, nmax=6, maxcard=3, name_kind=rng.choice(["str", "word"]), label_kind=rng.choice(["str", "int", "permint"]),
+                           mincard=2, positive=True)
+        n = len(case["nodes"])
+        api = rng.choice(["forward", "rejection", "lw", "simulate", "simulate_missing", "simulate_missing", "simulate_evidence", "gibbs"])
+        job = {"case": case, "api": api, "seed": rng.choice([0, 7, rng.randrange(10 ** 6)]), "size": rng.choice([3, 40])}
+        if api in ("rejection", "lw", "simulate_evidence"):
+            v = rng.randrange(n)
+            job["ev"] = [[v, rng.randrange(case["card"][v])]]
+        if api == "forward" and rng.random() < .5:
+            hidden = rng.sample(range(n), 1)
+            case["latents"] = hidden
+            job["latents"] = rng.random() < .5
+        if api == "simulate_missing":
+            job["missing_prob"] = rng.choice([0.1, 0.3, 0.5])
+            job["missing_columns"] = rng.choice([None, rng.sample(range(n), rng.randint(1, n))])
+        jobs.append(job)
+    return {"jobs": jobs, "hashseeds": rng.sample(range(0, 40), 2)}
+
+
+def run_repro(case, drv):
+    """every job is run in two fresh interpreters with different PYTHONHASHSEED: the digests of the sample frames (columns sorted by
+    name) must agree"""
+    import json
+    import os
+    import subprocess
+    import sys
+    outs = []
+    for hs in case["hashseeds"]:
+        env = dict(os.environ, PYTHONHASHSEED=str(hs), OMP_NUM_THREADS="1")
+        try:
+            p = subprocess.run([sys.executable, "-m", "harness.subrun"], input=json.dumps(case["jobs"]), capture_output=True, text=True, env=env,
+                               timeout=45, cwd=os.path.dirname(os.path.dirname(os.path.dirname(os.path.abspath(__file__)))))
+        except subprocess.TimeoutExpired:
+            return skip("helper interpreter too slow (loaded machine)")
+        line = [l for l in p.stdout.splitlines() if l.startswith("DIGESTS ")]
+        if not line:
+            return skip("helper interpreter produced no digests: " + p.stderr[-200:])
+        outs.append(json.loads(line[-1][8:]))
+    a, b = outs
+    for job, x, y in zip(case["jobs"], a, b):
+        if x.startswith("raised") or y.startswith("raised"):
+            if x != y:
+                return fail(f"{job['api']}(seed={job['seed']}): PYTHONHASHSEED={case['hashseeds'][0]} gives {x}, PYTHONHASHSEED={case['hashseeds'][1]} gives {y}", api=job["api"])
+            continue
+        if x != y:
+            return fail(f"{job['api']}(seed={job['seed']}, size={job['size']}) on nodes {job['case']['nodes']}: the sample frame differs between "
+                        f"PYTHONHASHSEED={case['hashseeds'][0]} and {case['hashseeds'][1]} (digests {x[:10]} / {y[:10]})", api=job["api"])
+    return ok(nontrivial=True, njobs=len(case["jobs"]))
+
+
 STREAMS = [
     Stream("forward", gen_forward, run_forward, quick=360, thorough=3600),
     Stream("evidence", gen_ev, run_ev, quick=300, thorough=3000),
     Stream("gibbs", gen_gibbs, run_gibbs, quick=300, thorough=3000),
     Stream("simulate", gen_sim, run_sim, quick=180, thorough=1800),
     Stream("gibbs_chain", gen_gibbs_chain, run_gibbs_chain, quick=90, thorough=900),
+    Stream("hashseed_repro", gen_repro, run_repro, quick=6, thorough=42),
     Stream("zero_state", gen_zero_state, run_zero_state, quick=1800, thorough=18000),
 ]
 for _s in STREAMS:
-    _s.limit = 20          # a rejection loop that cannot hit the evidence never returns: report instead of hanging
+    _s.limit = 20 if _s.name != "hashseed_repro" else 100         # a rejection loop that cannot hit the evidence never returns: report instead of hanging
